@@ -20,6 +20,9 @@ from vlib import facts as F, flow, wake
 from vlib.core import site_of
 from rules import malsec, C19
 
+# the overflow list and the stall-detection bookkeeping of the buffers have a sibling without the stall-detection
+# feature (the one the helper image ships): config N compiles it
+CONFIGS_QUICK = ["Q", "N"]
 LEVEL = "other"
 EXPLANATION = "C13: provenance of map keys and transport routes from one ChannelId, guard dominance of the record-count check, close-at-last pairing, waker discipline of gateway/transport poll functions, error-preserving stream adapters."
 
@@ -46,6 +49,8 @@ def run(ctx):
     C14.cursors(ctx, facts)
     C14.waker_store(ctx, facts)
     C14.waker_ring(ctx, facts)
+    C14.waker_overflow(ctx, facts)
+    C14.overflow_drain(ctx, facts)
     ctx.assume("transport implementations deliver streams to the route they are given; interleavings beyond the waker discipline are not decided here")
 
 
